@@ -64,13 +64,16 @@ void emit(std::string& out, const Node& n, Deco& d, bool comments) {
 namespace {
 // Parser::parse(const String&) converts to a C string; to keep the text in an exactly sized block the String is created
 // with String(ptr,len) whose capacity is len|3: up to 3 spare bytes. The libFuzzer target uses the same entry point.
+Xml::Parser* g_xparser = nullptr; long g_xparses = 0;   // created at the start of every case, destroyed at its end
 bool parseDoc(const std::string& text, Xml::Element& e, int& line, int& col) {
   // exactly sized block through the static entry point (memory safety), then the Parser object (error position)
   char* t = (char*)malloc(text.size() + 1); memcpy(t, text.data(), text.size()); t[text.size()] = 0;
   bool ok0; { pbt::LedgerPause lp; Xml::Element e0; ok0 = Xml::parse((const char*)t, e0); }  // (keeps a per-thread error string alive: not a leak)
   free(t);
   String s(text.data(), text.size());
-  Xml::Parser p; bool ok = p.parse(s, e);
+  // one Xml::Parser object serves two out of three parses of a case (nothing may carry over from one document to the next)
+  Xml::Parser fresh; Xml::Parser& p = (g_xparser && (++g_xparses % 3)) ? *g_xparser : fresh;
+  bool ok = p.parse(s, e);
   if (ok != ok0) pbt::g_ctx.fail("parse:entry-points-disagree", "Xml::parse(const char*) and Xml::Parser::parse(const String&) disagree on success");
   if (!ok) { line = p.getErrorLine(); col = p.getErrorColumn(); }
   return ok;
@@ -102,6 +105,7 @@ bool pbt_nontrivial(const Ctx& ctx) { return (ctx.has("special_attr_value") && c
 
 void pbt_run(const Case& cs, Ctx& ctx) {
   pbt::g_ledger.limitBytes = 48u << 20;
+  struct ParserScope { ParserScope() { g_xparser = new Xml::Parser; g_xparses = 0; } ~ParserScope() { delete g_xparser; g_xparser = nullptr; } } parserScope;
   Node root; root.name = "root";
   std::vector<std::vector<size_t>> open; open.push_back(std::vector<size_t>());
   auto resolve = [&](const std::vector<size_t>& p) -> Node* { Node* n = &root; for (size_t ix : p) n = &n->kids[ix]; return n; };
